@@ -54,6 +54,7 @@ Proof.
   rewrite (proj2 (String.eqb_neq _ _) Hq) in H. cbn [andb negb] in H.
   rewrite filter_true in H.
   set (mf := filter (fun f => negb (is_builtin (f_name f))) (d_fields b)) in *.
+  destruct (sig_clash mf (d_fields a)); [discriminate|].
   destruct (overlap_scan mf (d_fields a) []) as [res fl] eqn:Es.
   destruct (scan_names _ _ _ _ _ Es) as (A & B & nf & Efl & C). cbn [app] in Efl. subst nf.
   assert (Hb' : field_named n (d_fields b) = true -> exists g, In g mf /\ f_name g = n /\ is_id_field g = false).
@@ -77,9 +78,9 @@ Proof.
   - inversion H; subst. split; [auto|intros g []].
   - destruct (is_builtin (f_name f)) eqn:E.
     + destruct (IH _ _ H) as [A B]. split; [exact A|]. intros g [<-|Hg] Hb; [rewrite Hb in E; discriminate|auto].
-    + destruct (is_node_field f && field_named (f_name f) fields) eqn:E2.
+    + destruct (node_there f fields) eqn:E2.
       * destruct (IH _ _ H) as [A B]. split; [exact A|]. intros g [<-|Hg] Hb; [|auto].
-        apply andb_true_iff in E2 as [_ E2]. apply A, E2.
+        apply A, node_there_named, E2.
       * destruct (field_named (f_name f) fields); [discriminate|]. destruct (IH _ _ H) as [A B]. split.
         -- intros n Hn. apply A. rewrite field_named_app, Hn. reflexivity.
         -- intros g [<-|Hg] Hb; [|auto]. apply A. rewrite field_named_app, (field_named_In f [f] (or_introl eq_refl)). apply orb_true_r.
